@@ -15,7 +15,6 @@ import (
 	"bytes"
 	"fmt"
 	"testing"
-	"time"
 
 	"pgregory.net/rapid"
 
@@ -252,7 +251,7 @@ func run(c Case) *pbt.Violation {
 			if jn.rc != nil {
 				ok = jn.rc.WaitFor(func(r lalclient.Rec) bool {
 					return r.Type == mk.rec.Type && r.Ts == mk.rec.Ts && bytes.Equal(r.Payload, mk.rec.Payload)
-				}, 10*time.Second) >= 0
+				}, lalclient.DeliverTimeout) >= 0
 				if !ok && jn.rc.Err() != nil {
 					return pbt.V("framing/"+jn.spec.Kind, "consumer %d: %v", ci, jn.rc.Err())
 				}
@@ -264,7 +263,7 @@ func run(c Case) *pbt.Violation {
 					needle = mk.rec.Payload[2:]
 				}
 				if tsCarries(in.Codecs) {
-					ok = jn.ts.WaitPred(func(body []byte) bool { return tsHasPayload(body, needle) }, 10*time.Second)
+					ok = jn.ts.WaitPred(func(body []byte) bool { return tsHasPayload(body, needle) }, lalclient.DeliverTimeout)
 				} else {
 					ok = true // lal does not carry G.711 in TS; nothing to wait for
 				}
